@@ -1,17 +1,26 @@
 #!/bin/sh
-# usage: trydiffs.sh <dir-with-rNN.diff> [props]   -- false-alarm test: apply each diff to a scratch copy, run the checks, report anything that fires
+# usage: trydiffs.sh <dir-with-rNN.diff> [props]   -- false-alarm test: apply each diff to a scratch copy, run the checks (in parallel), report anything that fires
 set -u
 DIR=$(realpath "$1"); PROPS=${2:-"C01 C02 C03 C04 C05 C06 C07 C08 C09 C10 C11 C12 C13 C14 C15 C16 C17 C18 C19"}
 export GOFLAGS=-mod=mod GOPROXY=off GOSUMDB=off GOTOOLCHAIN=local GOWORK=off
+BIN=${SBPF_BIN:-/verif/bin/sbpfcheck}
 for df in "$DIR"/r*.diff; do
   D=$(mktemp -d /tmp/rf.XXXXXX)
   rsync -a --exclude .git /repo/ "$D/"
   if ! ( cd "$D" && git init -q . >/dev/null 2>&1; git apply "$df" ); then echo "$(basename $df): DOES NOT APPLY"; rm -rf "$D"; continue; fi
   ( cd "$D" && go build ./... ) >/dev/null 2>&1 || { echo "$(basename $df): build fails"; rm -rf "$D"; continue; }
+  mkdir -p "$D/.out"
+  # warm the build cache once (E6 compiles the tree), then all properties in parallel
+  for P in $PROPS; do
+    ( SBPF_REPO=$D $BIN -prop $P -tier quick -verif "$D/.verif.$P" >"$D/.out/$P.txt" 2>&1; echo $? >"$D/.out/$P.rc" ) &
+    # at most 10 at a time
+    while [ "$(jobs -r | wc -l)" -ge 10 ]; do sleep 0.2; done
+  done
+  wait
   FIRED=""
   for P in $PROPS; do
-    OUT=$(SBPF_REPO=$D ${SBPF_BIN:-/verif/bin/sbpfcheck} -prop $P -tier quick -verif "$D/.verif" 2>&1); RC=$?
-    if [ $RC -ne 0 ]; then FIRED="$FIRED $P"; echo "$OUT" | grep -E '^   (VIOLATED|UNDECIDED)|vacuous|FLOOR|panic' | cut -c1-330 | head -8 | sed "s/^/   [$(basename $df) $P] /"; fi
+    RC=$(cat "$D/.out/$P.rc" 2>/dev/null || echo 99)
+    if [ "$RC" -ne 0 ]; then FIRED="$FIRED $P"; grep -E '^   (VIOLATED|UNDECIDED)|vacuous|FLOOR|panic' "$D/.out/$P.txt" | cut -c1-330 | head -8 | sed "s/^/   [$(basename $df) $P] /"; fi
   done
   echo "$(basename $df): fired:${FIRED:- none}"
   rm -rf "$D"
